@@ -1075,6 +1075,84 @@ def r_clear_covers_fields(rule, root=None):
             rule.bad("clear|%s" % n, "Context::clear() leaves the field `%s` as it is: after a clear it still refers to nodes of the discarded graph, and the indices it holds alias whatever is built next" % n, A.where(CTX, fn))
 
 
+
+def r8_tree_builders(rule, root=None):
+    """the Tree builder API (what shapes, scripts and users write expressions with): every method builds its
+    namesake opcode on (self, other) in that order; the operator impls keep source order, also with the number
+    on the left"""
+    NAMES = {"modulo": "Mod", "atan2": "Atan"}
+    for hname, want in (("op_unary", "Tree(Arc::new(TreeOp::Unary($O,$A.0)))"), ("op_binary", "Tree(Arc::new(TreeOp::Binary($O,$A.0,$B.0)))")):
+        fn = A.find_fn(TREE, hname, self_ty="Tree", root=root)
+        ps = [A.binding_name(p["pat"]) for p in fn["sig"]["inputs"] if "pat" in p]
+        t = str(A.ftxt(A.inline_lets_deep(fn["body"]))).strip("{}")
+        exp = want.replace("$O", ps[-1]).replace("$A", ps[0]).replace("$B", ps[1] if len(ps) > 2 else "")
+        if t == exp:
+            rule.ok("Tree::%s stores (opcode, operands in parameter order)" % hname, file=TREE, line=fn["ln"])
+        else:
+            rule.bad("tree|%s" % hname, "Tree::%s must build `%s`; found `%s`" % (hname, exp, t), A.where(fn))
+    n_un = n_bin = 0
+    for fn in A.fns(TREE, root):
+        ow = fn.get("_owner") or {}
+        if A.strip_generics(ow.get("self_ty") or "") != "Tree" or ow.get("trait") or not dict.get(fn, "body"):
+            continue
+        t = str(A.ftxt(fn["body"]))
+        m = re.fullmatch(r"\{Self::op_(unary|binary)\((.*),(Unary|Binary)Opcode::(\w+)\)\}", t)
+        if not m:
+            continue
+        kind, args, kind2, variant = m.group(1), m.group(2), m.group(3), m.group(4)
+        name = fn["name"]
+        want_v = NAMES.get(name, name[:1].upper() + name[1:])
+        ps = [A.binding_name(p["pat"]) for p in fn["sig"]["inputs"] if "pat" in p]
+        want_args = "self.clone()" if kind == "unary" else "self.clone(),%s.into()" % (ps[0] if ps else "other")
+        if kind.capitalize() != kind2 or variant != want_v:
+            rule.bad("tree|%s|opcode" % name, "Tree::%s builds %sOpcode::%s; its name says %s" % (name, kind2, variant, want_v), A.where(fn))
+        elif args != want_args:
+            rule.bad("tree|%s|operands" % name, "Tree::%s passes `%s`; the receiver is the first operand and the argument the second (`%s`)" % (name, args, want_args), A.where(fn))
+        else:
+            rule.ok("Tree::%s -> %sOpcode::%s(%s)" % (name, kind2, variant, "self" if kind == "unary" else "self, other"), file=TREE, line=fn["ln"])
+            if kind == "unary":
+                n_un += 1
+            else:
+                n_bin += 1
+    if n_un < 15 or n_bin < 8:
+        rule.lost("Tree's named builder methods (found %d unary, %d binary; 20 / 9 known)" % (n_un, n_bin))
+    for ax in "xyz":
+        fn = A.find_fn(TREE, ax, self_ty="Tree", root=root)
+        if str(A.ftxt(fn["body"])) == "{Tree(Arc::new(TreeOp::Input(Var::%s)))}" % ax.upper():
+            rule.ok("Tree::%s() is the input Var::%s" % (ax, ax.upper()), file=TREE, line=fn["ln"])
+        else:
+            rule.bad("tree|axis|%s" % ax, "Tree::%s() must be TreeOp::Input(Var::%s)" % (ax, ax.upper()), A.where(fn))
+    d = A.load(TREE, root)
+    mdefs = {m["def"]: m for m in A.find(d["items"], "Macro") if m.get("def")}
+    if "impl_binary" not in mdefs:
+        rule.lost("macro impl_binary! in tree.rs")
+        return
+    from .C17 import tok
+
+    body = tok(mdefs["impl_binary"]["tokens"])
+    ln = mdefs["impl_binary"]["ln"]
+    facts = [
+        ("Tree op x builds op(self, x)", "tree-op", r"impl<A:Into<Tree>>std::ops::\$op<A>forTree\{typeOutput=Self;fn\$base_fn\(self,(?P<o>\w+):A\)->Self\{Self::op_binary\(self,(?P=o)\.into\(\),BinaryOpcode::\$op\)\}\}"),
+        ("Tree op= x rebuilds self as op(self, x)", "tree-assign", r"fn\$assign_fn\(&mutself,(?P<o>\w+):A\)\{usestd::ops::\$op;letmut(?P<n>\w+)=self\.clone\(\)\.\$base_fn\((?P=o)\.into\(\)\);std::mem::swap\(self,&mut(?P=n)\);\}"),
+        ("number op Tree builds op(number, tree): the float stays on the left", "f32-op", r"implstd::ops::\$op<Tree>forf32\{typeOutput=Tree;fn\$base_fn\(self,(?P<o>\w+):Tree\)->Tree\{Tree::op_binary\(self\.into\(\),(?P=o),BinaryOpcode::\$op\)\}\}"),
+    ]
+    for what, key, rx in facts:
+        if re.search(rx, body):
+            rule.ok("impl_binary!: %s" % what, file=TREE, line=ln)
+        else:
+            rule.bad("tree|impl_binary|%s" % key, "impl_binary!: %s (operands in source order; `1.0 - x` is Sub(1, x))" % what, "%s:%s" % (TREE, ln))
+    inv = sorted(tok(m["tokens"]) for m in A.find(d["items"], "Macro") if m.get("name") == "impl_binary" and not m.get("def"))
+    want = sorted(["Add,AddAssign,add,add_assign", "Sub,SubAssign,sub,sub_assign", "Mul,MulAssign,mul,mul_assign", "Div,DivAssign,div,div_assign"])
+    if inv == want:
+        rule.ok("+ - * / (and their assigning forms) are implemented for Add / Sub / Mul / Div", file=TREE)
+    else:
+        rule.bad("tree|impl_binary|table", "impl_binary! is invoked as %s; expected %s" % (inv, want), TREE)
+    ng = [i for i in A.find_impls(TREE, self_ty="Tree", root=root) if (i.get("trait") or "").replace(" ", "").endswith("ops::Neg")]
+    if len(ng) == 1 and "Tree::op_unary(self,UnaryOpcode::Neg)" in str(A.ftxt([x for x in ng[0]["items"] if x.get("k") == "Fn"][0]["body"])):
+        rule.ok("-tree is Neg(tree)", file=TREE)
+    else:
+        rule.bad("tree|neg", "`-tree` must build UnaryOpcode::Neg of the tree", TREE)
+
 def run(ctx):
     r = ctx.rule("R1", "constructor rewrites are identities over the reals under their premises", 20)
     ctx.guarded(r, r1_rewrites)
@@ -1103,3 +1181,8 @@ def run(ctx):
     ctx.guarded(r, r7_no_recursion)
     r = ctx.rule("R7f", "[resolved program] deep-tree entry points are in no call-graph cycle", 7)
     ctx.guarded(r, FR.no_recursion, ctx)
+    r = ctx.rule("R8", "the Tree builder API builds its namesake opcodes on (self, other) in order; operator impls keep source order, also with the number on the left", 36)
+    ctx.guarded(r, r8_tree_builders)
+    # "importing an exported node yields the original node": the importer's frame handling is C13's subject, and a
+    # slip there (C12j-1: the affine frame built from the outermost axes) changes what an imported tree means
+    ctx.include('C13', 'import must preserve the meaning of remapped subtrees', only=('R3', 'R4', 'R5'))
